@@ -11,9 +11,9 @@ INVS = ["PathsPairwiseDistinct", "ComponentCharset", "ChannelConservation", "Pai
         "SiblingNamesDistinct", "RoundTrip", "Emit"]
 
 # AKAI alphabet: 0-9 A-Z space # + - .   (no trailing blanks: the parser strips the padding)
-AKAI_POOL = ["A", "A L", "A-L", "A R", "A-R", "A  L", "A  R", "A -L", "A.", "A L.", "-L", "-R", "A+L", "L", "A 2 L", ".A"]
+AKAI_POOL = ["A", "A L", "A-L", "A R", "A-R", "A  L", "A  R", "A .", "A.", "A -L", "A L.", "-L", "-R", "A+L", "L", "A 2 L", ".A"]
 # ASCII names (Roland directory names, cue TITLEs): separators, dots, quotes, control characters, generated-looking names
-ASCII_POOL = ["A", "A L", "A-L", "A R", "A-R", "A  L", "A (2)", "A (2) L", "/", "a/b", "..", "../X", "'A'", ":A", "A:", " ", "*\\*",
+ASCII_POOL = ["A", "A L", "A-L", "A R", "A-R", "A  L", "A (2)", "A (2) L", "A  .", "/", "a/b", "..", "../X", "'A'", ":A", "A:", " ", "*\\*",
               "A\\B", "A\x0cL", "A_L", "A.", "`", "A\tL", "A+", "l", "A - L", "A - R", "?/?"]
 CUE_POOL = [n for n in ASCII_POOL if '"' not in n and "\t" not in n]
 
@@ -122,3 +122,15 @@ def collision_rich(names: List[str]) -> bool:
             lr.setdefault((n[:-2].rstrip(" -"), n[-2]), set()).add(n[-1])
     pairs = sum(1 for v in lr.values() if v == {"L", "R"})
     return dup_groups >= 2 or pairs >= 2 or (pairs >= 1 and any(k[0] in names for k, v in lr.items() if v == {"L", "R"}))
+
+
+def pick(cases: List[Dict[str, Any]], budget: int, seed: int) -> List[Dict[str, Any]]:
+    """quick-tier selection: every lone name (a directory with one item is a path of its own through the naming code) and a
+    seeded shuffle of the rest - never a stride over the sorted cases, whose neighbours differ in the dimension that matters"""
+    import json as _j
+    import random as _r
+    cs = sorted(cases, key=lambda c: _j.dumps(c["names"]))
+    lone = [c for c in cs if len(c["names"]) <= 1]
+    rest = [c for c in cs if len(c["names"]) > 1]
+    _r.Random(seed).shuffle(rest)
+    return lone + rest[:budget]
